@@ -49,6 +49,9 @@ class World:
         self.k = Key.in_(["a", "m"]) | Key.dtype.equal_to(int)
         self.part = MapOrListValue(value=self.ab)
         self.mpart = MapValue(key=self.k)
+        # a map-or-list part whose key, index and value conditions are all non-null: filtering with it builds a
+        # real combination on every call (whereas `part` takes the null short-cut)
+        self.part2 = MapOrListValue(key=Key.not_equal_to("zz"), index=Index.less_than(4), value=Value.not_equal_to("x"))
         self.pa = DataPath("a")
         self.rows = DataPath("tbl", ListValue(), ListValue())
         self.s_cast = Schema([
@@ -78,7 +81,7 @@ class World:
         self.docs = [self.d1, self.d2, self.d3]
 
     def roots(self):
-        return [self.a, self.b, self.ab, self.k, self.part, self.mpart, self.pa, self.rows, self.s_cast, self.s_path, self.s_doc,
+        return [self.a, self.b, self.ab, self.k, self.part, self.part2, self.mpart, self.pa, self.rows, self.s_cast, self.s_path, self.s_doc,
                 self.d1, self.d2, self.d3]
 
 
@@ -107,6 +110,7 @@ def menu():
         ops.append(("filter a", di, lambda w, di=di: obs_filtered(w.a.filter(w.docs[di]))))
         ops.append(("filter a&b", di, lambda w, di=di: obs_filtered(w.ab.filter(w.docs[di]))))
         ops.append(("part.filter", di, lambda w, di=di: obs_filtered(w.part.filter(w.docs[di]))))
+        ops.append(("part2.filter", di, lambda w, di=di: obs_filtered(w.part2.filter(w.docs[di]))))
         ops.append(("get a", di, lambda w, di=di: vsnap(w.pa.get_data(w.docs[di])) if di != 1 else vsnap(w.pa.get_data(w.docs[di], return_paths=True))))
         ops.append(("get part paths", di, lambda w, di=di: vsnap(DataPath(w.part).get_data(w.docs[di], return_paths=True))))
         ops.append(("get rows", di, lambda w, di=di: vsnap((w.rows if di != 1 else DataPath(ListValue(), ListValue())).get_data(w.docs[di], return_paths=(di == 0)))))
